@@ -306,12 +306,14 @@ def run_property(pid, tier, budget=1.0, jobs=0, use_known=True):
     for bucket in sorted(merged["violations"]):
         lst = sorted(merged["violations"][bucket], key=lambda v: v["size"])
         fresh = []
-        for v in lst:
+        cap = getattr(mod, "ATTRIBUTION_CAP", 6)  # region predicates may re-execute the case: examine the smallest few per bucket
+        for v in lst[:cap]:
             kid = _attribute(mod, known, bucket, v["case"])
             if kid:
                 attributed[kid] += 1
             else:
                 fresh.append(v)
+                break
         if not fresh:
             continue
         v = fresh[0]
